@@ -192,6 +192,7 @@ func main() {
 	writeIfChanged(filepath.Join(dir, "Sql.lean"), b.String())
 
 	writeIfChanged(filepath.Join(dir, "LexPatterns.lean"), lexPatLean(repoRoot()))
+	writeIfChanged(filepath.Join(dir, "Guards.lean"), guardsLean(repoRoot()))
 	writeIfChanged(filepath.Join(dir, "Shared.lean"), sharedLean(repoRoot()))
 }
 
